@@ -20,7 +20,8 @@ use varpulis_cluster::raft::store::{MemStore, SharedCoordinatorState};
 use varpulis_cluster::raft::{ClusterCommand, NodeId, RaftNode, TypeConfig};
 use varpulis_cluster::worker::WorkerCapacity;
 
-pub const NAMES: &[&str] = &["C35"];
+/// `C35` = the check; `C35-suite` = only the conformance suite (support), for a quick look
+pub const NAMES: &[&str] = &["C35", "C35-suite"];
 
 pub type Ent = Entry<TypeConfig>;
 
@@ -691,11 +692,17 @@ fn suite(run: &mut Run, rocks: bool) {
     run.ctx.count("suite");
 }
 
-pub fn run(ctx: &mut Ctx, _name: &str) {
+pub fn run(ctx: &mut Ctx, name: &str) {
     // keep the panic messages of expected panics (tainted snapshots, suite assertions) out of stderr
     std::panic::set_hook(Box::new(|_| {}));
     let thorough = ctx.thorough;
     let mut run = Run { ctx, rt: rt(), scratch: Scratch::new(), stores: BTreeMap::new(), snaps: Vec::new() };
+    if name == "C35-suite" {
+        suite(&mut run, false);
+        suite(&mut run, true);
+        let _ = std::panic::take_hook();
+        return;
+    }
     let (n_sm, n_log) = if thorough { (120, 300) } else { (14, 60) };
     for i in 0..n_sm {
         let len = if thorough { 4 + run.ctx.rng.below(40) } else { 3 + run.ctx.rng.below(14) };
